@@ -27,6 +27,7 @@ from ..model import Program, walk_own, is_self_attr, dotted
 from ..report import AnalysisError
 from .. import tables
 from ..tables import Leaf
+from ..model import canon as K
 
 MESH = "hypnotoad/core/mesh.py"
 TOK = tables.TOK
@@ -199,7 +200,7 @@ def writer_integers(prog, topo):
     if body is None:
         raise AnalysisError("writer body not found")
     for s in body:
-        if isinstance(s, ast.If) and ("len(self.x_startinds)" in T(mod, s.test) or "len(self.y_regions_noguards)" in T(mod, s.test)):
+        if isinstance(s, ast.If) and (K("len(self.x_startinds)") in T(mod, s.test) or K("len(self.y_regions_noguards)") in T(mod, s.test)):
             try:
                 ex.stmt(s, env)
             except PathRaises as e:
@@ -480,10 +481,10 @@ def make_connection(prog, rep):
     for s in walk_own(f.node):
         if isinstance(s, ast.Assign) and isinstance(s.targets[0], ast.Subscript):
             stores[T(mod, s.targets[0])] = T(mod, s.value)
-    ok = stores.get('lRegion.connections[lowerSegment]["upper"]') == "(upperRegion,upperSegment)" and stores.get('uRegion.connections[upperSegment]["lower"]') == "(lowerRegion,lowerSegment)"
+    ok = stores.get(K('lRegion.connections[lowerSegment]["upper"]')) == K("(upperRegion,upperSegment)") and stores.get(K('uRegion.connections[upperSegment]["lower"]')) == K("(lowerRegion,lowerSegment)")
     rep.ob("R1", "makeConnection records the join symmetrically (upper of the lower region, lower of the upper region)", ok, f.site(), str(stores), key="makeConnection/symmetric")
     defs = {s.targets[0].id: T(mod, s.value) for s in walk_own(f.node) if isinstance(s, ast.Assign) and isinstance(s.targets[0], ast.Name)}
-    rep.ob("R1", "lRegion / uRegion are the named regions", defs.get("lRegion") == "self.regions[lowerRegion]" and defs.get("uRegion") == "self.regions[upperRegion]", f.site(), str(defs), key="makeConnection/regions")
+    rep.ob("R1", "lRegion / uRegion are the named regions", defs.get("lRegion") == K("self.regions[lowerRegion]") and defs.get("uRegion") == K("self.regions[upperRegion]"), f.site(), str(defs), key="makeConnection/regions")
 
 
 def _stmt_texts(mod, fnode):
@@ -505,7 +506,7 @@ def r3(prog, rep):
     f = prog.func(MESH, "BoutMesh.__init__")
     mod = f.module
     st = _stmt_texts(mod, f.node)
-    has = lambda *xs: all(x in st for x in xs)
+    has = lambda *xs: all(K(x) in st for x in xs)
     facts = {
         "x sizes are the first region's nx list": has("x_sizes=[0]+list(eq_region0.nx)"),
         "x start indices are their cumulative sum": has("self.x_startinds=numpy.cumsum(x_sizes)"),
@@ -513,8 +514,8 @@ def r3(prog, rep):
         "y slices are consecutive: each region starts where the previous one ended": has("y_total_new=y_total+this_ny", "reg_slice=slice(y_total,y_total_new,None)", "y_total=y_total_new", "y_total=0"),
         "y extents are the regions' ny including their boundary guards": has("this_ny=region.ny(0)"),
         "regions are visited in the equilibrium's region order": has("forregname,regioninself.equilibrium.regions.items():", "y_regions[regname]=reg_slice"),
-        "every (region, segment) gets the product of its x and y slices": has("self.region_indices[self.region_lookup[(reg_name,i)]]=(numpy.index_exp[x_regions[i],y_regions[reg_name]])"),
-        "global nx, ny are the sums": has("self.nx=sum(eq_region0.nx)", "self.ny=sum(r.ny(0)forrinself.equilibrium.regions.values())"),
+        "every (region, segment) gets the product of its x and y slices": has("self.region_indices[self.region_lookup[(reg_name, i)]] = numpy.index_exp[x_regions[i], y_regions[reg_name]]"),
+        "global nx, ny are the sums": has("self.nx=sum(eq_region0.nx)", "self.ny = sum(r.ny(0) for r in self.equilibrium.regions.values())"),
         "no-guard block sizes recorded in the same order": has("self.y_regions_noguards.append(region.ny_noguards)"),
     }
     for k, ok in facts.items():
@@ -522,9 +523,9 @@ def r3(prog, rep):
     # region numbering in Mesh.__init__
     g = prog.func(MESH, "Mesh.__init__")
     st = _stmt_texts(g.module, g.node)
-    ok = all(x in st for x in ("forreg_name,eq_reginequilibrium.regions.items():", "foriinrange(eq_reg.nSegments):", "self.region_lookup[(reg_name,i)]=region_number", "region_number=len(regionlist)", "regionlist.append((reg_name,i))"))
+    ok = all(K(x) in st for x in ("forreg_name,eq_reginequilibrium.regions.items():", "foriinrange(eq_reg.nSegments):", "self.region_lookup[(reg_name, i)] = region_number", "region_number=len(regionlist)", "regionlist.append((reg_name,i))"))
     rep.ob("R3", "region numbers enumerate (region, segment) pairs once, in region order", ok, g.site(), "", key="tiling/numbering")
-    ok = "self.connections[region_id][key]=self.region_lookup[val]" in st
+    ok = K("self.connections[region_id][key]=self.region_lookup[val]") in st
     rep.ob("R3", "mesh connections are the equilibrium's connections translated through the same numbering", ok, g.site(), "", key="tiling/connections")
 
 
@@ -540,10 +541,10 @@ def r5_r6(prog, rep, topos):
     text = T(mod, w.node)
     # R6 y-coord
     facts = {
-        "y.centre is the exclusive cumulative sum of dy": "y.centre[:,1:]=numpy.cumsum(self.dy.centre,axis=1)[:,:-1]" in text,
-        "y.ylow is the centre minus half a cell; the last face adds half a cell": "y.ylow[:,:-1]=y.centre-0.5*self.dy.centre[:,:]" in text and "y.ylow[:,-1]=y.centre[:,-1]+0.5*self.dy.centre[:,-1]" in text,
-        "y.xlow copies the centre values (y does not vary in x)": "y.xlow=y.centre[0,numpy.newaxis,:]" in text,
-        "theta starts as a copy of y": "theta=deepcopy(y)" in text,
+        "y.centre is the exclusive cumulative sum of dy": K("y.centre[:,1:]=numpy.cumsum(self.dy.centre,axis=1)[:,:-1]") in text,
+        "y.ylow is the centre minus half a cell; the last face adds half a cell": K("y.ylow[:,:-1]=y.centre-0.5*self.dy.centre[:,:]") in text and K("y.ylow[:,-1]=y.centre[:,-1]+0.5*self.dy.centre[:,-1]") in text,
+        "y.xlow copies the centre values (y does not vary in x)": K("y.xlow=y.centre[0,numpy.newaxis,:]") in text,
+        "theta starts as a copy of y": K("theta=deepcopy(y)") in text,
     }
     for k, ok in facts.items():
         rep.ob("R6", k, ok, site, "", key="ycoord/" + k)
@@ -576,7 +577,7 @@ def r5_r6(prog, rep, topos):
     rep.floor("R5.subscripts", len(targets), 6)
     seen = set()
     for t in topos:
-        if t.name.startswith("TORPEX") or "start_at_upper_outer" in t.name or t.name.startswith("CDN("):
+        if t.name.startswith("TORPEX") or "start_at_upper_outer" in t.name or t.name.startswith(K("CDN(")):
             continue
         ctx, ints, err, facts = writer_integers(prog, t)
         if ints is None:
@@ -601,7 +602,7 @@ def r5_r6(prog, rep, topos):
                 pass
         for node, e in targets:
             guard_if = _enclosing_if(w.node, node)
-            if guard_if is not None and "jyseps2_1!=jyseps1_2" in T(mod, guard_if.test) and (ints["jyseps2_1"] - ints["jyseps1_2"]).is_zero():
+            if guard_if is not None and K("jyseps2_1!=jyseps1_2") in T(mod, guard_if.test) and (ints["jyseps2_1"] - ints["jyseps1_2"]).is_zero():
                 continue  # double-null-only code, not executed for this topology
             exprs = []
             if isinstance(e, ast.Slice) and e.lower is not None and e.upper is not None:
@@ -652,21 +653,21 @@ def y_group_origin(prog, rep, rule):
     shape = ["region_list=list(self.regions.values())", "whileregion_list:", "fori,first_regioninenumerate(region_list):", 'iffirst_region.connections["lower"]isNone:', "break",
              "next_region=first_region", "next_region.yGroupIndex=len(group)", "group.append(next_region)", "region_list.pop(i)", 'next_region=next_region.getNeighbour("upper")',
              "ifnext_regionisNoneorgroup.count(next_region)>0:", "i=region_list.index(next_region)", "self.y_groups.append(group)"]
-    missing = [s for s in shape if s not in text]
+    missing = [s for s in shape if K(s) not in text]
     if missing:
         rep.error(rule, "y-grouping loop no longer has the modelled shape (missing %s): update hv/props/c08.py" % missing, f.site())
         return
     # python semantics of the search loop: without an `else` clause the loop variables keep
     # the LAST element when no region with a free lower edge is left; with
     # `else: i = 0; first_region = region_list[0]` the first one is taken
-    search = [n for n in ast.walk(f.node) if isinstance(n, ast.For) and T(mod, n.target) == "i,first_region"]
+    search = [n for n in ast.walk(f.node) if isinstance(n, ast.For) and T(mod, n.target) == K("i,first_region")]
     if len(search) != 1:
         rep.error(rule, "search loop over region_list not found", f.site())
         return
     orelse = [T(mod, s) for s in search[0].orelse]
     if not orelse:
         fallback = "last"
-    elif sorted(orelse) == ["first_region=region_list[0]", "i=0"]:
+    elif sorted(orelse) == [K("first_region=region_list[0]"), K("i=0")]:
         fallback = "first"
     else:
         rep.error(rule, "else-clause of the search loop not understood: %s" % orelse, f.site())
@@ -731,12 +732,12 @@ def r8(prog, rep):
                 stores[t.value.attr] = (T(mod, t.slice), T(mod, s.value))
     for loc in ("centre", "xlow"):
         got = stores.get(loc)
-        ok = got is not None and got[0] == "self.region_indices[region.myID][0],:"
+        ok = got is not None and got[0] == K("self.region_indices[region.myID][0],:")
         rep.ob("R8", "x-direction array: %s values are placed with the region's x-slice only (the array has a single y entry)" % loc, ok, "%s:%d" % (mod.rel, fx.lineno),
                "index used: %s" % (got[0] if got else None), key="xarray/" + loc)
-    nan_init = {T(mod, s.targets[0]) for s in ast.walk(fx) if isinstance(s, ast.Assign) and T(mod, s.value) == 'float("nan")'}
-    rep.ob("R8", "x-direction arrays start as NaN at centre and xlow (undefined on open field lines)", {"f.centre[...]", "f.xlow[...]"} <= nan_init, "%s:%d" % (mod.rel, fx.lineno), str(nan_init), key="xarray/nan-init")
+    nan_init = {T(mod, s.targets[0]) for s in ast.walk(fx) if isinstance(s, ast.Assign) and T(mod, s.value) == K('float("nan")')}
+    rep.ob("R8", "x-direction arrays start as NaN at centre and xlow (undefined on open field lines)", {K("f.centre[...]"), K("f.xlow[...]")} <= nan_init, "%s:%d" % (mod.rel, fx.lineno), str(nan_init), key="xarray/nan-init")
     w = mod.funcs.get("BoutMesh.writeGridfile")
     text = T(mod, w.node)
-    ok = "chi=2.0*numpy.pi*self.zShift/self.ShiftAngle" in text and "chi.ylow=2.0*numpy.pi*self.zShift.ylow/self.ShiftAngle.centre" in text
+    ok = K("chi=2.0*numpy.pi*self.zShift/self.ShiftAngle") in text and K("chi.ylow=2.0*numpy.pi*self.zShift.ylow/self.ShiftAngle.centre") in text
     rep.ob("R8", "chi = 2*pi*zShift/ShiftAngle at every written location (NaN where ShiftAngle is NaN)", ok, w.site(), "", key="chi/def")
